@@ -102,6 +102,62 @@ impl W {
     }
 }
 
+/// Receivers whose key does not end in a closing delimiter: a Debug-derived unit-like enum (with an
+/// enum argument) and a primitive receiver through a trait impl. Only the separator keeps
+/// (A, BC) and (AB, C) resp. (7, 11, 2) and (71, 1, 2) apart.
+#[derive(Debug, Clone, Copy, PartialEq)]
+pub enum En {
+    A,
+    AB,
+    ABC,
+}
+impl DefaultCacheableKey for En {}
+#[derive(Debug, Clone, Copy, PartialEq)]
+pub enum Eu {
+    B,
+    BC,
+    C,
+    CB,
+}
+impl DefaultCacheableKey for Eu {}
+impl En {
+    #[cache]
+    pub fn ks_m_en_en(&self, a: Eu) -> i64 {
+        let _ = a;
+        kbody()
+    }
+    #[cache_async]
+    pub async fn ka_m_en_en(&self, a: Eu) -> i64 {
+        let _ = a;
+        kbody()
+    }
+}
+fn d_en(v: &Value) -> En {
+    match v["name"].as_str().unwrap() {
+        "A" => En::A,
+        "AB" => En::AB,
+        _ => En::ABC,
+    }
+}
+fn d_eu(v: &Value) -> Eu {
+    match v["name"].as_str().unwrap() {
+        "B" => Eu::B,
+        "BC" => Eu::BC,
+        "C" => Eu::C,
+        _ => Eu::CB,
+    }
+}
+pub trait KPrim {
+    fn ks_m_u_u_u(&self, a: u32, b: u32) -> i64;
+}
+impl KPrim for u32 {
+    #[cache]
+    fn ks_m_u_u_u(&self, a: u32, b: u32) -> i64 {
+        let _ = (a, b);
+        kbody()
+    }
+}
+
 // ---------------------------------------------------------------------------------------------
 // JSON value descriptors -> Rust values
 // ---------------------------------------------------------------------------------------------
@@ -216,6 +272,15 @@ fn call(sig: &str, asy: bool, p: &[Value]) {
             let a = d_str(&p[1]);
             let (r2, a2) = (r.clone(), a.clone());
             go!(r.ks_m_w(a), r2.ka_m_w(a2))
+        }
+        "m_en_en" => {
+            let (r, a) = (d_en(&p[0]), d_eu(&p[1]));
+            go!(r.ks_m_en_en(a), r.ka_m_en_en(a))
+        }
+        "m_u_u_u" => {
+            let (r, a, b) = (d_int(&p[0]) as u32, d_int(&p[1]) as u32, d_int(&p[2]) as u32);
+            assert!(!asy, "m_u_u_u has no async variant");
+            r.ks_m_u_u_u(a, b);
         }
         "five" => {
             let (a, b, c, d, e) = (
